@@ -529,6 +529,9 @@ impl Scenario for C05 {
         let mut srng = Rng::derive(spec.seed, spec.index, 2);
         let workload = if spec.overrides.is_null() { gen_workload(&mut wrng) } else { spec.overrides.clone() };
         report::set_workload(workload.clone());
+        if spec.gen_only {
+            return;
+        }
         let strategy = sched::Strategy::swarm(&mut srng, 200);
         report::set_strategy(strategy.describe());
         *MODEL.lock().unwrap() = Some(Model::default());
